@@ -31,7 +31,7 @@ PENDING = {
 
 CHECKS = {
  'C10': dict(
-   text="Proof, by Verus, of contracts on the real text of all 8 RegisterAllocator methods and 31 BytecodeBuilder methods "
+   text="Proof, by Verus, of contracts on the real text of all 8 RegisterAllocator methods and 37 BytecodeBuilder / BytecodeChunk methods "
         "(extracted from /repo and annotated in place on every run): abstract view = set of handed-out registers, representation invariant, fresh/exact/no-truncation "
         "postconditions for u8 registers, u16 constant indices and u32 jump operands, explicit-error-only-at-the-limit clauses, full frames. By induction over the "
         "invariant the clauses hold for every call sequence of any length - exactly the 255th-register / 65536th-constant / 2^32 corner the tests never reach. "
@@ -65,7 +65,7 @@ CHECKS = {
    ref="§4.2"),
  'C15': dict(
    text="Proof (ToInt32/ToUint32 clause only): Kani contract on the real to_int32/to_uint32 over all 2^64 f64 bit patterns against an integer-only specification of "
-        "'truncate then wrap modulo 2^32'; the link to the 13 operator sites is a syntactic side obligation with a native replay battery.",
+        "'truncate then wrap modulo 2^32'; the link to the 13 operator sites, the compound-assignment table and parseInt's radix is a syntactic side obligation with a native replay battery (testing, not proof).",
    note="Trusted: Kani/CBMC float semantics (bit-precise except f64 %, which the contracted code does not use). NOT carried: shortest round-trip printing, literal/Number() "
         "parsing, toFixed/toPrecision/toExponential/toString(radix) (DESIGN §4.5).",
    technique="contract-based deductive verification (Kani function contract, loop-free harness over the full f64 domain)",
